@@ -1,6 +1,6 @@
 #!/usr/bin/env python3
 """Stores the confirmed seeded changes under /verif/seeded/<ID>-<k>/ from the deliveries in /tmp/seed-out and the
-verification logs written by run_seeds.sh.  usage: store_seeds.py [--src DIR] [--offset N] FINAL_LOG [EARLIER_LOG ...]   (round 3: --src /tmp/seed-out3 --offset 2)"""
+verification logs written by run_seeds.sh.  usage: store_seeds.py [--src DIR] [--offset N] FINAL_LOG[,NEWER_LOG..] [EARLIER_LOG ...]   (round 3: --src /tmp/seed-out3 --offset 2)"""
 import json, os, re, shutil, sys
 V = os.path.dirname(os.path.dirname(os.path.abspath(__file__)))
 SRC = "/tmp/seed-out"
@@ -55,7 +55,12 @@ def main():
         if args[0] == "--src": SRC = args[1]; args = args[2:]
         elif args[0] == "--offset": offset = int(args[1]); args = args[2:]
         else: raise SystemExit("unknown option " + args[0])
-    logs = [parse_log(p) for p in args]
+    def merged(spec):
+        out = {}
+        for q in spec.split(","):          # later logs override earlier ones, seed by seed
+            out.update(parse_log(q))
+        return out
+    logs = [merged(p) for p in args]
     final, earlier = logs[0], logs[1:]
     os.makedirs(os.path.join(V, "seeded"), exist_ok=True)
     n = 0
